@@ -37,6 +37,13 @@ CHECKS["C14"] = dict(
    note="As C02; one injected non-finite likelihood (in-memory) is the modelled failure.",
    technique="symbolic execution of the real Python loops + z3; sat models replayed on the real build",
    ref="3/C14")
+CHECKS["C15"] = dict(
+   text="RVData.__init__ / ivar / cov / copy / __getitem__ (real data.py under shimmed numpy+astropy) run on symbolic times, velocities, errors or a full covariance, a symbolic is-finite flag per cell, "
+        "a symbolic RV unit scale and ANY sorting permutation numpy's argsort may return; z3 proves per path: exactly the finite observations are kept (all when clean=False), every (t, rv, err | cov row+column) stays intact, "
+        "sorted by time, units unchanged, ivar*err^2=1 / cov.ivar=I, default t_ref = earliest kept time, copy keeps t_ref and observations, slices keep pairing. n_epochs<=3 (quick) / 4 (thorough), covariance n<=2/3.",
+   note="Trusted: z3, symx, numpy/astropy semantics as modelled in symx.symnp / symx.units (argsort = any sorting permutation), velocities as pairwise-distinct labels, reals for floats.",
+   technique="symbolic execution of the real Python source + z3 (LRA + Int permutation + small NRA); sat models replayed on the real RVData",
+   ref="3/C15")
 NOT_YET = {}
 ALL = ["C%02d" % i for i in range(1, 20)]
 
